@@ -40,7 +40,7 @@ def gen_sig_rows(rng, n, m, poly):
         if a in seen:
             continue
         seen.add(a)
-        rows.append((list(a), Fraction(rng.choice([1, -1, 2, -2, 3, 5, -4]))))
+        rows.append((list(a), Fraction(rng.choice([1, -1, 2, -2, 3, 5, -4, 1, -3, 9]), rng.choice([1, 1, 2, 4]))))
     return rows
 
 
@@ -121,10 +121,12 @@ def oracle_mra(s_rows, h_rows, L_rows, n, poly, symbolic, rng):
     return None
 
 
-def impl_rcv(g_rows, ref, n, poly):
+def impl_rcv(g_rows, ref, n, poly, int_ref=False):
     _, _, sc = mods()
     g = to_obj(g_rows, n, poly)
     refa = np.array([[float(a) for a in r] for r in ref]).reshape(len(ref), n)
+    if int_ref and np.all(refa == np.round(refa)):
+        refa = refa.astype(int)          # exponents held in an integer array (e.g. Signomial(np.array([[0], [1]]), c).alpha)
     return [Fraction(v) for v in sc.relative_coeff_vector(g, refa).tolist()]
 
 
@@ -171,8 +173,9 @@ def gen_case(rng):
     kind = rng.choice(['full', 'full', 'full', 'missing', 'cancel'])
     if kind == 'missing' and len(Lr) > 1:
         Lr.pop(rng.randrange(len(Lr)))
-    if kind == 'cancel' and not symbolic:
-        # numeric s_h chosen so that a row cancels: s = (y^a + 1), h = (y^a - 1)
+    if kind == 'cancel':
+        # s = (y^a + 1), h = (y^a - 1): with numeric s_h the row a cancels in the product; with Variable coefficients (or any
+        # surrogate for them) it does not, and a reference basis without a must be refused
         a = [Fraction(1)] * n
         s_rows = [(a, Fraction(1)), ([Fraction(0)] * n, Fraction(1))]
         h_rows = [(a, Fraction(1)), ([Fraction(0)] * n, Fraction(-1))]
@@ -218,15 +221,22 @@ def run(ctx):
         if ctx.rng.random() < 0.4 and len(ref) > 1:
             ref.pop(ctx.rng.randrange(len(ref)))
         ctx.rng.shuffle(ref)
-        pert = ctx.rng.choice(['none', 'none', 'inside', 'outside'])
-        if pert != 'none':
+        pert = ctx.rng.choice(['none', 'none', 'inside', 'outside', 'inside_all'])
+        if pert == 'inside_all':
+            # every coordinate of one row off by 2^-27 (< 1e-8) in the same direction: still the same row
+            k = ctx.rng.randrange(len(ref))
+            sg = ctx.rng.choice([1, -1])
+            ref[k] = [v + sg * Fraction(1, 2 ** 27) for v in ref[k]]
+        elif pert != 'none':
             k = ctx.rng.randrange(len(ref))
             j = ctx.rng.randrange(n)
             d = Fraction(1, 2 ** 29) if pert == 'inside' else Fraction(1, 2 ** 25)
             ref[k] = list(ref[k])
             ref[k][j] = ref[k][j] + ctx.rng.choice([d, -d])
         ctx.count('rcv.perturb', pert)
-        out = impl_rcv(g_rows, ref, n, poly)
+        int_ref = pert == 'none' and ctx.rng.random() < 0.4
+        ctx.count('rcv.int_reference', int_ref)
+        out = impl_rcv(g_rows, ref, n, poly, int_ref)
         rc.append(({'n': n, 'poly': poly, 'g': jrows(g_rows), 'ref': [[str(a) for a in r] for r in ref]},
                    cq((g_rows, ref)), cq(out), (g_rows, ref, n, poly)))
     ctx.evaluations += len(rc)
